@@ -133,6 +133,14 @@ def run(ctx):
         if i % 4 == 2:
             # other unit systems: large magnitudes in the printed torsors (N, mm), tiny ones (kN, m)
             s = G.convert_units(s, Fr(rng.choice(["10", "0.01"])), Fr(rng.choice(["1", "0.001", "1000"])))
+        if i % 6 == 1:
+            # a slice node whose external, left and right loads are all large in the same component (N mm sized moments):
+            # the printed net load is the float sum of the three in the order the program adds them
+            b = s.bars[0]["id"]
+            for k_, tt in enumerate((Fr("0.4"), Fr("0.65"), Fr("0.15"))):
+                s.loads += [{"kind": "c", "term": "mz", "local": True, "bar": b, "t": tt, "v": Fr(rng.choice(["12750000.5", "98765432.1", "33333333.3"]))},
+                            {"kind": "c", "term": "fy", "local": True, "bar": b, "t": tt, "v": Fr(rng.choice(["-125000.7", "777777.7"]))}]
+            s.loads.append({"kind": "d", "term": "fy", "local": True, "bar": b, "t0": Fr(0), "v0": Fr("-42.3"), "t1": Fr(1), "v1": Fr("-17.9")})
         if i % 6 == 5:
             s = G.with_unused_node(s, rng)      # a node no bar is linked to has no equation numbers to write
         structs.append(s)
@@ -144,7 +152,7 @@ def run(ctx):
         if rep.get("case"):
             cases = [rep["case"]]
             direct = [dict(rep["case"], ViaPre=False)]
-    for c in cases[: (6 if ctx.tier == "quick" else 60)]:
+    for c in cases[: (3 if ctx.tier == "quick" else 60)]:
         c["Templates"] = True
     outs = S.run_pipeline(ctx, cases)
     outs_d = S.run_pipeline(ctx, direct)
